@@ -8,43 +8,43 @@ namespace SigModel.Lemmas.C02K
 open SigModel.Tlv SigModel.Cmp SigModel.Lemmas.C01
 
 /-- The guard of `implCmp_eq_spec_partial`, on the stored value, the operator and the literal enclosure.  It
-excludes exactly the classes refuted by the counterexample theorems:
+excludes exactly the classes refuted by the counterexample theorems (code after the C02 repairs):
   F  a stored numeric STRING (the kernel treats it as "not a number");
   D  an unsigned record against a signed (negative) integer literal (compared with `uint64(negative)`);
-  E  a signed record against an unsigned literal ≥ 2^63 (compared with the wrapped `int64(literal)`);
   B  an integer record that `float64(·)` does not represent exactly, against a float-typed literal;
-  C  a float record against an integer literal that `float64(·)` does not represent exactly;
-  A  `=` / `!=` in the float domain with operands that differ by less than the AlmostEquals tolerance. -/
-def cmpGuardQ (rnd : Rat → Rat) (v : SVal) (op : Op) (q : Lit) : Bool :=
+  C  a float record against an integer literal that `float64(·)` does not represent exactly.
+(B and C hold for every |n| ≤ 2^53.) -/
+def cmpGuardQ (rnd : Rat → Rat) (v : SVal) (_op : Op) (q : Lit) : Bool :=
   match v with
   | .str s => (numOfStr? s).isNone
   | .bool _ => true
   | .backfill => true
   | .int i =>
     match q.dtype with
-    | .float => decide (rnd (i : Rat) = (i : Rat)) && tolOk rnd op (i : Rat) q.flt
-    | .unsigned => decide ((q.unsigned : Int) < two63)
+    | .float => decide (rnd (i : Rat) = (i : Rat))
     | _ => true
   | .uint n =>
     match q.dtype with
-    | .float => decide (rnd (n : Rat) = (n : Rat)) && tolOk rnd op (n : Rat) q.flt
+    | .float => decide (rnd (n : Rat) = (n : Rat))
     | .signed => false
     | _ => true
-  | .float b =>
+  | .float _ =>
     match q.dtype with
-    | .float => tolOk rnd op (f64val b) q.flt
-    | .signed => decide (rnd (q.signed : Rat) = (q.signed : Rat)) && tolOk rnd op (f64val b) (q.signed : Rat)
-    | .unsigned => decide (rnd (q.unsigned : Rat) = (q.unsigned : Rat)) && tolOk rnd op (f64val b) (q.unsigned : Rat)
+    | .signed => decide (rnd (q.signed : Rat) = (q.signed : Rat))
+    | .unsigned => decide (rnd (q.unsigned : Rat) = (q.unsigned : Rat))
     | _ => true
 
 theorem wrapS64_small (u : Nat) (h : (u : Int) < two63) : wrapS64 (u : Int) = (u : Int) := by
   unfold wrapS64 two64; unfold two63 at h ⊢; omega
 
+theorem wrapS64_big (u : Nat) (h1 : two63 ≤ (u : Int)) (h2 : (u : Int) < two64) : wrapS64 (u : Int) < 0 := by
+  unfold wrapS64; unfold two64 at h2 ⊢; unfold two63 at h1 ⊢; omega
+
 theorem specCmp_nonnum (v : SVal) (op : Op) (q : Lit) (h : v.num? = none) : specCmp v op q = (op == .ne) := by
   simp [specCmp, h]
 
 /-- the comparison against ANY well-shaped numeric literal enclosure -/
-theorem impl_eq_spec_q (rnd : Rat → Rat) (hr : RndOk rnd) (ci : Bool) (v : SVal) (hv : v.wf) (op : Op) (q : Lit)
+theorem impl_eq_spec_q (rnd : Rat → Rat) (_hr : RndOk rnd) (ci : Bool) (v : SVal) (hv : v.wf) (op : Op) (q : Lit)
     (hq : LitOk rnd q) (hg : cmpGuardQ rnd v op q = true) :
     implCmp rnd ci v.enc op q = .ok (specCmp v op q) := by
   have hnum : implCmp rnd ci v.enc op q = fopOnNumber rnd v.enc q op := by
@@ -66,12 +66,18 @@ theorem impl_eq_spec_q (rnd : Rat → Rat) (hr : RndOk rnd) (ci : Bool) (v : SVa
     cases hd : q.dtype <;> simp [hd] at hq <;> simp [cmpGuardQ, hd] at hg
     · -- signed literal
       simp [promote, hd, compareNumberDte, specCmp, SVal.num?, Lit.num?, cmpQ_int]
-    · -- unsigned literal below 2^63
-      have hs : q.signed = (q.unsigned : Int) := by rw [hq.2.1]; exact wrapS64_small _ hg
-      simp [promote, hd, compareNumberDte, specCmp, SVal.num?, Lit.num?, hs, ← natCast_rat, cmpQ_int]
+    · -- unsigned literal: below 2^63 the SignedVal is the value, above it has wrapped and the record is smaller
+      by_cases hu : (q.unsigned : Int) < two63
+      · have hs : q.signed = (q.unsigned : Int) := by rw [hq.2.1]; exact wrapS64_small _ hu
+        have hnn : ¬ q.signed < 0 := by rw [hs]; omega
+        simp [promote, hd, compareNumberDte, specCmp, SVal.num?, Lit.num?, hs, ← natCast_rat, cmpQ_int]
+        intro h; omega
+      · have hneg : q.signed < 0 := by rw [hq.2.1]; exact wrapS64_big _ (by omega) hq.2.2
+        have hlt : i < (q.unsigned : Int) := by unfold two63 at hu hv; omega
+        simp [promote, hd, compareNumberDte, specCmp, SVal.num?, Lit.num?, hneg, ← natCast_rat, cmpQ_int]
+        cases op <;> simp [cmpZ] <;> omega
     · -- float literal
-      simp [promote, hd, compareNumberDte, specCmp, SVal.num?, Lit.num?, hg.1]
-      exact cmpFloat_eq_cmpQ rnd hr op _ _ hg.2
+      simp [promote, hd, compareNumberDte, cmpFloat, specCmp, SVal.num?, Lit.num?, hg]
   | uint n =>
     simp at hv
     simp only [fopOnNumber, getNum_uint n hv]
@@ -80,18 +86,14 @@ theorem impl_eq_spec_q (rnd : Rat → Rat) (hr : RndOk rnd) (ci : Bool) (v : SVa
     · -- unsigned literal
       simp [promote, hd, compareNumberDte, specCmp, SVal.num?, Lit.num?, ← natCast_rat, cmpQ_int]
     · -- float literal
-      simp [promote, hd, compareNumberDte, specCmp, SVal.num?, Lit.num?, hg.1]
-      exact cmpFloat_eq_cmpQ rnd hr op _ _ hg.2
+      simp [promote, hd, compareNumberDte, cmpFloat, specCmp, SVal.num?, Lit.num?, hg]
   | float b =>
     simp only [fopOnNumber, getNum_float b hv]
     unfold LitOk at hq
     cases hd : q.dtype <;> simp [hd] at hq <;> simp [cmpGuardQ, hd] at hg
     · -- signed literal: FloatVal = float64(SignedVal), exact by the guard
-      simp [promote, hd, compareNumberDte, specCmp, SVal.num?, Lit.num?, hq.1, hg.1]
-      exact cmpFloat_eq_cmpQ rnd hr op _ _ hg.2
-    · simp [promote, hd, compareNumberDte, specCmp, SVal.num?, Lit.num?, hq.1, hg.1]
-      exact cmpFloat_eq_cmpQ rnd hr op _ _ hg.2
-    · simp [promote, hd, compareNumberDte, specCmp, SVal.num?, Lit.num?]
-      exact cmpFloat_eq_cmpQ rnd hr op _ _ hg
+      simp [promote, hd, compareNumberDte, cmpFloat, specCmp, SVal.num?, Lit.num?, hq.1, hg]
+    · simp [promote, hd, compareNumberDte, cmpFloat, specCmp, SVal.num?, Lit.num?, hq.1, hg]
+    · simp [promote, hd, compareNumberDte, cmpFloat, specCmp, SVal.num?, Lit.num?]
 
 end SigModel.Lemmas.C02K
